@@ -718,6 +718,13 @@ func (cx *qctx) compareFind(got []cand, counts map[string]int, ratios map[string
 			return &failure{kind: "unsorted", msg: fmt.Sprintf("results not strictly sorted / duplicate at %d:%s", i, fmtCands(got, 12))}
 		}
 	}
+	dup := map[[2]int32]bool{}
+	for _, g := range got {
+		if dup[[2]int32{g.s, g.e}] {
+			return &failure{kind: "duplicate", msg: fmt.Sprintf("(%d,%d) is reported twice (with different distances):%s", g.s, g.e, fmtCands(got, 12))}
+		}
+		dup[[2]int32{g.s, g.e}] = true
+	}
 	if len(got) > k {
 		return &failure{kind: "too-many", msg: fmt.Sprintf("%d results with MaxResults=%d", len(got), k)}
 	}
@@ -953,6 +960,14 @@ func (cx *qctx) classify(fl *failure) {
 				return
 			}
 		}
+	}
+	// "MaxError != 0" is tested against the zero of the distance type, which for
+	// furthest queries is π: with MaxError == π the target still stops early but
+	// duplicates are not avoided, so an edge seen in several cells is reported
+	// several times with different distances.
+	if fl.kind == "duplicate" && cx.furthest && cx.tg.kind == "index" && cx.o.MaxError == 4 && cx.o.k() > 1 && cx.out.outer == "edgequery.optimized" {
+		fl.finding = "furthest-maxerror-compared-with-pi"
+		return
 	}
 	optimized := cx.out.outer == "edgequery.optimized"
 	isIdx := cx.tg.kind == "index"
